@@ -175,7 +175,15 @@ impl Method for PhoneticMethod {
                 return Suggestion::empty();
             }
 
-            self.create_suggestion(data, config)
+            let suggestion = self.create_suggestion(data, config);
+
+            if suggestion.is_empty() {
+                // Nothing is left to show (only escape characters remain), so the
+                // frontend sees an empty suggestion: end the input session too.
+                self.buffer.clear();
+            }
+
+            suggestion
         } else {
             Suggestion::empty()
         }
